@@ -533,7 +533,10 @@ def check_C12(tier, seed, replay=None):
 
 
 def check_C20(tier, seed, replay=None):
-    return ref_family_check("C20", tier, seed, [("hist", "", 400)], [("hist", "", 8000)])
+    corr = _corr_generic("histplancases", "C20", "Plan.run_creations (outcome of every creation, absolute values of the two counters) vs random "
+                         "histories of 5-34 creations on one engine instance, interleaved with executions (immediate, deferred, cancelled) "
+                         "and closes, fallback enabled or disabled", 25, 250, shards_quick=8, shards_thorough=16)
+    return ref_family_check("C20", tier, seed, [("hist", "", 400)], [("hist", "", 8000)], corr=corr)
 
 
 CHECKS = {"C01": check_C01, "C04": check_C04, "C05": check_C05, "C06": check_C06, "C08": check_C08, "C02": check_C02, "C03": check_C03, "C07": check_C07, "C11": check_C11, "C19": check_C19, "C16": check_C16, "C09": check_C09, "C10": check_C10, "C12": check_C12, "C13": check_C13, "C14": check_C14,
